@@ -1062,7 +1062,10 @@ def np_searchsorted(eng, st, args, kwargs):
         raise OutOfSubset('np.searchsorted outside the modelled form')
     n = a.shape[0]
     k = z3.Int(fresh_name('ss'))
-    eng.oblige('safe', 'searchsorted-sorted', st, z3.ForAll([k], z3.Implies(z3.And(0 <= k, k + 1 < to_z3(n)), to_z3(le(a.at(k), a.at(k + 1))))))
+    if isinstance(n, int):
+        eng.oblige('safe', 'searchsorted-sorted', st, and_(*[le(a.at(t), a.at(t + 1)) for t in range(n - 1)]) if n > 1 else True)
+    else:
+        eng.oblige('safe', 'searchsorted-sorted', st, z3.ForAll([k], z3.Implies(z3.And(0 <= k, k + 1 < to_z3(n)), to_z3(le(a.at(k), a.at(k + 1))))))
     va = arr_of(eng, st, args[1])
     before = (lambda x, v: lt(x, v)) if side == 'left' else (lambda x, v: le(x, v))
 
